@@ -1,0 +1,60 @@
+//go:build verif
+
+package simhook
+
+import "sync"
+
+// Enabled reports whether the hooks are compiled in.
+const Enabled = true
+
+// Handler is called from every hook when non-nil.
+// try is nil for a plain yield point; for a lock gate it reports whether the lock could be taken right now
+// (it takes and immediately releases it).
+// Handler must be installed before any goroutine that reaches a hook is started.
+var Handler func(point string, try func() bool)
+
+// Yield marks a point where a simulator may switch to another goroutine.
+func Yield(point string) {
+	if h := Handler; h != nil {
+		h(point, nil)
+	}
+}
+
+// BeforeLock is called immediately before mu.Lock().
+func BeforeLock(point string, mu *sync.RWMutex) {
+	if h := Handler; h != nil {
+		h(point, func() bool {
+			if mu.TryLock() {
+				mu.Unlock()
+				return true
+			}
+			return false
+		})
+	}
+}
+
+// BeforeRLock is called immediately before mu.RLock().
+func BeforeRLock(point string, mu *sync.RWMutex) {
+	if h := Handler; h != nil {
+		h(point, func() bool {
+			if mu.TryRLock() {
+				mu.RUnlock()
+				return true
+			}
+			return false
+		})
+	}
+}
+
+// BeforeMutex is called immediately before mu.Lock().
+func BeforeMutex(point string, mu *sync.Mutex) {
+	if h := Handler; h != nil {
+		h(point, func() bool {
+			if mu.TryLock() {
+				mu.Unlock()
+				return true
+			}
+			return false
+		})
+	}
+}
